@@ -107,7 +107,7 @@ func (j *c16Judge) judgeDesc(d *c16Desc, styles []c16Style) (ok bool) {
 	good := true
 	if diffs := c16CompareDesc(d, rules); len(diffs) > 0 {
 		class := diffs[0].Class
-		if canonLong && class == "roundtrip:rule-count" && len(rules) < len(d.Items) {
+		if canonLong && class == "roundtrip:rule-count" && len(rules) < len(d.compiled()) {
 			class = "long-line-drops-directives"
 		}
 		if strings.HasPrefix(class, "roundtrip:target") && c16HasSlashKey(d) {
@@ -227,10 +227,11 @@ func c16HasSlashKey(d *c16Desc) bool {
 }
 
 func c16MetaDiff(d *c16Desc, metas []c16Meta) string {
-	if len(metas) != len(d.Items) {
-		return fmt.Sprintf("observer saw %d rules, description has %d", len(metas), len(d.Items))
+	items := d.compiled()
+	if len(metas) != len(items) {
+		return fmt.Sprintf("observer saw %d rules, description has %d", len(metas), len(items))
 	}
-	for i, it := range d.Items {
+	for i, it := range items {
 		m := metas[i]
 		if it.Marker != "" {
 			if m.Mark != it.Marker {
@@ -552,10 +553,31 @@ type c16Params struct {
 }
 
 func c16Cover(w *fw.W, d *c16Desc) {
+	inherit := map[int]bool{}
 	for _, it := range d.Items {
+		if it.Default != nil {
+			w.Count("default_action_items", 1)
+			inherit[c16PhaseOf(it.Default)] = true
+			continue
+		}
 		if it.Marker != "" {
 			w.Count("markers", 1)
 			continue
+		}
+		if inherit[c16PhaseOf(it.Rule.Actions)] {
+			w.Count("rules_with_inherited_defaults", 1)
+			own := false
+			for _, a := range it.Rule.Actions {
+				if c16IsDisruptive(a.Name) {
+					own = true
+					if strings.EqualFold(a.Name, "block") {
+						w.Count("rules_block_resolved_by_default", 1)
+					}
+				}
+			}
+			if !own {
+				w.Count("rules_disruptive_action_inherited", 1)
+			}
 		}
 		depth := 0
 		for rule := it.Rule; rule != nil; rule = rule.Chain {
@@ -592,6 +614,9 @@ func c16Cover(w *fw.W, d *c16Desc) {
 				}
 				if strings.ContainsAny(string(a.Val), ",:'") {
 					w.Count("action_values_with_delimiters", 1)
+				}
+				if v := string(a.Val); v != strings.TrimSpace(v) {
+					w.Count("action_values_with_outer_blanks", 1)
 				}
 			}
 		}
@@ -718,7 +743,7 @@ func c16Replay(w *fw.W, raw json.RawMessage) {
 func init() {
 	fw.Register(&fw.Prop{
 		ID: "C16", Level: "exploration",
-		Rule: "structured rule descriptions (targets with string keys, regex keys, exclusions and counts over every usable variable name; every operator with a generated argument its constructor accepts; action lists over the registered action names with quoted values containing commas, colons and escaped quotes; chains, markers, SecAction) are rendered canonically and under 8 (quick) / 16 (thorough) equivalent styles (directive/action name case, optional quoting, continuations at token boundaries, indentation, comments, CRLF, spacing, 1-4 files via Include over fs.FS / real files / several strings) and compiled; verifapi.DumpRules of every rendering must equal the canonical one, and the canonical one must equal the description field by field; rule-observer metadata likewise. Long batches put 1 KiB - 256 KiB on one physical line. Single rules are probed with a request built to satisfy the description and its negation; near-miss texts (one delimiter deleted or duplicated) must error or compile to the description only for a fixed list of certainly-invalid shapes, everything else is counted. A description is non-trivial when the canonical text compiled, equalled the description, and at least one rendering with different text compiled to the same dump; distinct by hash of the description.",
+		Rule: "structured rule descriptions (targets with string keys, regex keys, exclusions and counts over every usable variable name; every operator with a generated argument its constructor accepts; action lists over the registered action names with quoted values containing commas, colons and escaped quotes; quoted values with blanks at either end inside the quotes; chains, markers, SecAction; SecDefaultAction items followed by rules of that phase that inherit its disruptive action, status and log flags) are rendered canonically and under 8 (quick) / 16 (thorough) equivalent styles (directive/action name case, optional quoting, continuations at token boundaries, indentation, comments, CRLF, spacing (between arguments, after commas, around action values), 1-4 files via Include over fs.FS / real files / several strings, settings directives moved into included files) and compiled; verifapi.DumpRules of every rendering must equal the canonical one, and the canonical one must equal the description field by field; rule-observer metadata likewise. Long batches put 1 KiB - 256 KiB on one physical line. Single rules are probed with a request built to satisfy the description and its negation; near-miss texts (one delimiter deleted or duplicated) must error or compile to the description only for a fixed list of certainly-invalid shapes, everything else is counted. A description is non-trivial when the canonical text compiled, equalled the description, and at least one rendering with different text compiled to the same dump; distinct by hash of the description.",
 		Assumptions: []string{
 			"not generated (no agreed rendering, DESIGN.md §5 C16 Care): values ending in a backslash, operator arguments containing backslash-quote, unbalanced single quotes, double quotes inside action values, leading/trailing blanks in values, line breaks inside values, blanks inside target keys, exclusions placed before their target, tabs between directive arguments",
 			"an action value is the text between the quotes with its \\' sequences kept; string and regex keys are compared modulo ASCII/Unicode lower-casing (case folding of keys is C01's subject)",
@@ -726,7 +751,8 @@ func init() {
 			"near misses outside the fixed certainly-invalid list that compile to something else are counted (near_miss_accepted_different), not judged",
 			"a physical line of 64 KiB or more may be rejected with an error; it must not be accepted with later directives missing; likewise a directive whose last line ends in a backslash at the end of the text is loaded or refused, never dropped",
 		},
-		Required: []string{"descriptions_compiled", "renderings_compared", "include_splits", "long_lines_compared", "near_miss_error", "invalid_rejected", "probes_fired", "probes_not_fired", "chains"},
+		Required: []string{"descriptions_compiled", "renderings_compared", "include_splits", "long_lines_compared", "near_miss_error", "invalid_rejected", "probes_fired", "probes_not_fired", "chains",
+			"default_action_items", "rules_with_inherited_defaults", "rules_block_resolved_by_default", "rules_disruptive_action_inherited", "action_values_with_outer_blanks", "feature:value-spacing", "feature:include-settings"},
 		Plan: func(tier fw.Tier, seed int64) []fw.Batch {
 			normal, long := 12, 4
 			if tier == fw.Thorough {
